@@ -241,6 +241,7 @@ class ReducerWorld(World):
             with ctx.impl("reducer()", facts):
                 red = self._build(cfg, False)
                 twin = self._build(cfg, True)
+        fresh = None          # freshly built reducer fed only the observations since the last clear
         state = None          # functional state
         recorded = []         # implementation's own reported values since the last clear, newest first
         cleared_before = False
@@ -275,6 +276,8 @@ class ReducerWorld(World):
                     with ctx.impl("observe", facts):
                         red(*args)
                         twin(*args)
+                        if fresh is not None:
+                            fresh(*args)
                     with ctx.impl("peek", facts):
                         got = red.peek()
                         got_t = twin.peek()
@@ -332,6 +335,12 @@ class ReducerWorld(World):
                 for k in range(min(n, len(recorded))):
                     if not torch.equal(torch.nan_to_num(got[k], nan=-7.0), torch.nan_to_num(recorded[k].to(got.dtype), nan=-7.0)):
                         ctx.fail("dump_order", dict(facts, k=k), f"dump()[{k}] = {got[k].tolist()} but the value recorded {k} steps ago was {recorded[k].tolist()}")
+                if fresh is not None:
+                    gf = fresh.dump()
+                    if gf is None or gf.shape != got.shape or not torch.equal(torch.nan_to_num(gf, nan=-7.0), torch.nan_to_num(got, nan=-7.0)):
+                        ctx.fail("cleared_differs_from_fresh", dict(facts, op="dump"),
+                                 f"dump after clear {got.flatten().tolist()} differs from a freshly built reducer given the same observations {None if gf is None else gf.flatten().tolist()}")
+                    ctx.probe("fresh_twin_compared")
                 ctx.log("dump", got)
                 ctx.probe("dump")
             elif name == "clear":
@@ -347,6 +356,7 @@ class ReducerWorld(World):
                 model.clear()
                 recorded = []
                 cleared_before = True
+                fresh = self._build(cfg, False)
                 ctx.log("clear", op["keepshape"])
                 with ctx.impl("peek after clear", facts):
                     got = red.peek()
@@ -385,6 +395,12 @@ class ReducerWorld(World):
                     ctx.fail("view_none", facts, "view returned None although observations exist")
                     continue
                 ctx.log("view", op["times"], got)
+                if fresh is not None:
+                    gf = fresh.view(time, **kw)
+                    if gf is None or gf.shape != got.shape or not torch.equal(torch.nan_to_num(gf, nan=-7.0), torch.nan_to_num(got, nan=-7.0)):
+                        ctx.fail("cleared_differs_from_fresh", dict(facts, op="view"),
+                                 f"view({op['times']}) after clear {got.flatten().tolist()} differs from a freshly built reducer given the same observations {None if gf is None else gf.flatten().tolist()}")
+                    ctx.probe("fresh_twin_compared")
                 exp_shape = shape if form != "tensorD" else shape + (D,)
                 if tuple(got.shape) != exp_shape:
                     ctx.fail("view_shape", dict(facts, form=form), f"view returned shape {tuple(got.shape)} expected {exp_shape}")
